@@ -617,6 +617,8 @@ def body_emd(cfg, darsia):
             emd.cv2 = CapCV2()
             S.set_rtol(1e-5)
             d = E(I1, I2)
+            S.claim("emd_leaves_both_images_as_they_were", S.and_(S.eq(I1.img, a), S.eq(I2.img, b)))
+            S.claim("emd_is_symmetric_on_the_same_image_objects", S.eq(E(I2, I1), d))
             s1, s2, flag = captured[0]
             ok, cnt = [], 0
             for r in range(shape[0]):
@@ -639,6 +641,7 @@ def body_emd(cfg, darsia):
             S.claim("single_cell_move_costs_mass_times_euclidean_distance", S.and_(okm))
             return
         d = E(I1, I2)
+        S.claim("emd_leaves_both_images_as_they_were", S.and_(S.eq(I1.img, a), S.eq(I2.img, b)))
         s1, s2, flag = captured[0]
         ok = []
         cnt = 0
